@@ -22,6 +22,27 @@ Automatic semicolon insertion (§7.9.1):
             inserted semicolon always terminates a non-empty statement (so it is never an EmptyStatement).
   rule 3    restricted productions: postfix `++`/`--`, `continue`, `break`, `return`, `throw`.
 
+Tree convention (= harness/treedump.py `dump(node)` without meta attributes, on the tree calmjs builds):
+  ES5Program / Block / VarStatement / CaseBlock   attribute `children`
+  Identifier, PropIdentifier, Number, String, Regex, Boolean, Null, Debugger, EmptyStatement   `value` = source spelling
+  This                                           no attributes
+  GroupingOp(expr)                               nested parentheses collapse into one node (`((a))`), `((a),b)` does not
+  Array(items)                                   every maximal run of n elision commas is one `Elision(value=n)` item
+  Object(properties)                             Assign(op ":", left, right) | GetPropAssign(prop_name, elements)
+                                                 | SetPropAssign(prop_name, parameter, elements); names are PropIdentifier/String/Number
+  DotAccessor(node, identifier=PropIdentifier)   BracketAccessor(node, expr)   FunctionCall(identifier, args=Arguments(items))
+  NewExpr(identifier, args=Arguments(items) | None)
+  UnaryExpr(op, value)  PostfixExpr(op, value)  BinOp(op, left, right)  Assign(op, left, right)
+  Conditional(predicate, consequent, alternative)   Comma(left, right) nested to the left
+  VarDecl(identifier, initializer | None); in `for (var x [= e] in …)` the kind is VarDeclNoIn
+  For(init, cond, count, statement): init/cond are ExprStatement(expr) or the placeholder EmptyStatement(";"),
+      init is VarStatement for `for (var …;;)`; count is the bare expression or None
+  ForIn(item, iterable, statement)  If(predicate, consequent, alternative | None)  While / DoWhile(predicate, statement)
+  Continue / Break(identifier | None)  Return(expr | None)  Throw(expr)  With(expr, statement)  Label(identifier, statement)
+  Switch(expr, case_block=CaseBlock(children=[Case(expr, elements) | Default(elements)]))
+  Try(statements=Block, catch=Catch(identifier, elements=Block) | None, fin=Finally(elements=Block) | None)
+  FuncDecl / FuncExpr(identifier | None, parameters, elements)   ExprStatement(expr)
+
 All functions are total: the mutual recursion is structural on a fuel argument which decreases at every
 call; `parseProgram` supplies `16 * (text length) + 64` (every chain of calls without consuming a token is
 shorter than 16, see the level structure below).
